@@ -327,7 +327,7 @@ func ZZC01Shadow() {
 const c01SrcEdge = `package d
 
 //«annT»
-// @constructor NewT
+// @constructor NewT, Init, Setup
 type T struct {
 	N  int
 	Xs []int
@@ -371,6 +371,29 @@ func Edge(p *T, o *Outer, op OuterP) {
 	p.A = 9 // E-MUT-FIRST-NAME
 	p.B = 10 // E-MUT-SECOND-NAME
 	p.B++ // E-MUT-SECOND-INC
+}
+
+type TA = T
+
+// methods of T itself that are listed as constructors: the receiver written directly and through an alias
+func (t *T) Init() {
+	t.N = 1 // E-METHOD-CTOR
+}
+
+func (a *TA) Setup() {
+	a.N = 2 // E-ALIAS-METHOD-CTOR
+	*a = T{} // E-ALIAS-METHOD-CTOR-RECV
+}
+
+// a defined pointer type: q.N stands for (*q).N
+type NP *T
+
+func ViaDefinedPointer(q NP) {
+	q.N = 1 // E-DEFPTR-ASSIGN
+	q.N++ // E-DEFPTR-INC
+	q.N += 1 // E-DEFPTR-COMPOUND
+	q.Xs[0] = 1 // E-DEFPTR-INDEX
+	(*q).N = 2 // E-DEFPTR-EXPLICIT
 }
 
 type Helper struct{}
@@ -425,6 +448,12 @@ func ZZC01Edge() {
 		{f, nd.LineOf(src, "E-MUT-SECOND-NAME"), "IMM01", nd.And(immT, nd.Not(nd.HasPrefix(mutAB, " @mutable")))},
 		{f, nd.LineOf(src, "E-MUT-SECOND-INC"), "IMM03", nd.And(immT, nd.Not(nd.HasPrefix(mutAB, " @mutable")))},
 		{f, nd.LineOf(src, "E-OTHER-METHOD-NAMED-LIKE-CTOR"), "IMM01", immT},
+		// E-METHOD-CTOR, E-ALIAS-METHOD-CTOR(-RECV): a listed method of the type itself is a constructor, however its receiver is spelled
+		{f, nd.LineOf(src, "E-DEFPTR-ASSIGN"), "IMM01", immT},
+		{f, nd.LineOf(src, "E-DEFPTR-INC"), "IMM03", immT},
+		{f, nd.LineOf(src, "E-DEFPTR-COMPOUND"), "IMM02", immT},
+		{f, nd.LineOf(src, "E-DEFPTR-INDEX"), "IMM04", immT},
+		{f, nd.LineOf(src, "E-DEFPTR-EXPLICIT"), "IMM01", immT},
 		// E-OUTER-OWN, E-LOCAL-*: nothing
 	}, "C01 edge forms")
 }
